@@ -36,6 +36,9 @@ theorem fact_retry_backoff :
 theorem fact_notifyNow_retries :
     Facts.C14.notifyNowRetriesWrites = ["dbEvent.Retries = maxRetries", "dbEvent.Retries++"] := by decide
 
+/-- Save: "only schedule new events" - the job is written only when the key is absent -/
+theorem fact_save_only_new_events : Facts.C14.saveWritesWhenKeyAbsent = 1 ∧ Facts.C14.saveWritesOtherwise = 0 := by decide
+
 theorem fact_run_replays_every_job :
     Facts.C14.runNotifyNowPerJob = 1 ∧
     Facts.C14.runConditions = ["strings.HasSuffix(event.Error, jsonld.ContextURLNotAllowedErr.Error())", "event.Retries < maxRetries"] := by decide
